@@ -89,7 +89,12 @@ type Case struct {
 	Concurrent bool        `json:"concurrent,omitempty"`
 	Stream     bool        `json:"stream,omitempty"` // call Stream instead of Invoke
 	Interrupt  *IntSpec    `json:"interrupt,omitempty"`
-	Yield      uint64      `json:"yield"`
+	// Again: after an interrupted run has been resumed to completion, resume once more from
+	// the checkpoint the store still holds (the last one written): a second, independent
+	// continuation of the same interrupted run. For the model and the oracle it is one more
+	// run (index Runs + k) whose prefix up to that checkpoint is the original run's prefix.
+	Again bool   `json:"again,omitempty"`
+	Yield uint64 `json:"yield"`
 }
 
 // ---------------------------------------------------------------- values and state
@@ -217,12 +222,55 @@ type rec struct {
 	seq     int64
 	events  []*Event
 	overlap int32
-	gens    int64
+	gens    map[int]int64 // run -> generator calls made on behalf of that run
 	ycount  uint64
 	yseed   uint64
 	active  int64 // node bodies and critical sections in flight
 	mods    map[int][]int // run -> graphs the modifier was applied to
 	rounds  map[[3]int]int // (run, node, what) -> how often it has been executed in that run
+	replays []replayInfo
+}
+
+// replayInfo describes a second continuation (Case.Again) of run From from its last checkpoint.
+type replayInfo struct {
+	From       int
+	Run        int    // run index the continuation was executed under (Runs + From; renumbered later)
+	CutSeq     int64  // sequence number of the last resume marker of run From
+	PrefixGens int64  // generator calls run From had made when that checkpoint was written
+}
+
+func (h *rec) gen(ctx context.Context) {
+	h.mu.Lock()
+	h.gens[runOf(ctx)]++
+	h.mu.Unlock()
+}
+
+func (h *rec) gensOf(run int) int64 {
+	h.mu.Lock()
+	defer h.mu.Unlock()
+	return h.gens[run]
+}
+
+// roundsOf returns the execution counters of one run (taken while the run is interrupted:
+// nothing of it is executing)
+func (h *rec) roundsOf(run int) map[[2]int]int {
+	h.mu.Lock()
+	defer h.mu.Unlock()
+	out := map[[2]int]int{}
+	for k, v := range h.rounds {
+		if k[0] == run {
+			out[[2]int{k[1], k[2]}] = v
+		}
+	}
+	return out
+}
+
+func (h *rec) installRounds(run int, m map[[2]int]int) {
+	h.mu.Lock()
+	defer h.mu.Unlock()
+	for k, v := range m {
+		h.rounds[[3]int{run, k[0], k[1]}] = v
+	}
 }
 
 // round tells how often (node, what) has been executed before in this run (0 for the first
@@ -257,6 +305,9 @@ func (h *rec) yield() {
 	case 4:
 		runtime.Gosched()
 		runtime.Gosched()
+	case 5:
+		// a long critical section: whatever becomes due meanwhile meets a held lock
+		time.Sleep(time.Duration(z>>8%250) * time.Microsecond)
 	}
 }
 
@@ -589,12 +640,12 @@ func (h *rec) newGraphOpts(gi int, g *GraphSpec) []compose.NewGraphOption {
 	}
 	if g.STy == 1 {
 		return []compose.NewGraphOption{compose.WithGenLocalState(func(ctx context.Context) *St2 {
-			atomic.AddInt64(&h.gens, 1)
+			h.gen(ctx)
 			return &St2{Total: int64(gi) * 1000, Cnt: map[string]int64{}}
 		})}
 	}
 	return []compose.NewGraphOption{compose.WithGenLocalState(func(ctx context.Context) *St {
-		atomic.AddInt64(&h.gens, 1)
+		h.gen(ctx)
 		return &St{Total: int64(gi) * 1000, Cnt: map[string]int64{}}
 	})}
 }
@@ -815,13 +866,11 @@ func (h *rec) call(c *Case, r compose.Runnable[M, M], ctx context.Context, opts 
 	return r.Invoke(ctx, in, opts...)
 }
 
-func (h *rec) oneRun(c *Case, r compose.Runnable[M, M], run int, resumes *[]Resume, intSeen *bool) RunOut {
-	ctx := context.WithValue(context.Background(), runKey{}, run)
+func (h *rec) runOpts(c *Case, run, cpRun int) []compose.Option {
 	var opts []compose.Option
 	if c.Interrupt != nil {
-		opts = append(opts, compose.WithCheckPointID(fmt.Sprintf("cp%d", run)))
+		opts = append(opts, compose.WithCheckPointID(fmt.Sprintf("cp%d", cpRun)))
 	}
-	out, err := h.call(c, r, ctx, opts...)
 	if c.Interrupt != nil && c.Interrupt.Modifier {
 		opts = append(opts, compose.WithStateModifier(func(ctx context.Context, path compose.NodePath, state any) error {
 			s := asSt(state)
@@ -836,6 +885,22 @@ func (h *rec) oneRun(c *Case, r compose.Runnable[M, M], run int, resumes *[]Resu
 			return nil
 		}))
 	}
+	return opts
+}
+
+// lastInt is what is known about the last interrupt of a run.
+type lastInt struct {
+	marker Resume
+	gens   int64
+	rounds map[[2]int]int
+}
+
+// resumeLoop resumes the run (executed under index run, checkpoint id of run cpRun) as long
+// as it ends in an interrupt.
+func (h *rec) resumeLoop(c *Case, r compose.Runnable[M, M], ctx context.Context, run, cpRun int, out M, err error,
+	resumes *[]Resume, intSeen *bool) (M, error, *lastInt) {
+	var last *lastInt
+	opts := h.runOpts(c, run, cpRun)
 	for round := 0; err != nil && c.Interrupt != nil && round < 24; round++ {
 		info, ok := compose.ExtractInterruptInfo(err)
 		if !ok {
@@ -845,6 +910,7 @@ func (h *rec) oneRun(c *Case, r compose.Runnable[M, M], run int, resumes *[]Resu
 		res := Resume{Run: run, Mods: []int{}}
 		var olds []*St
 		c.infoSnaps(info, 0, &res.Snaps, &olds)
+		last = &lastInt{gens: h.gensOf(run), rounds: h.roundsOf(run)}
 		res.Seq = atomic.AddInt64(&h.seq, 1)
 		h.mu.Lock()
 		from := len(h.mods[run])
@@ -855,11 +921,49 @@ func (h *rec) oneRun(c *Case, r compose.Runnable[M, M], run int, resumes *[]Resu
 		h.mu.Unlock()
 		sort.Ints(res.Mods)
 		*resumes = append(*resumes, res)
+		last.marker = res
 	}
+	return out, err, last
+}
+
+func outOf(run int, out M, err error) RunOut {
 	if err != nil {
 		return RunOut{Run: run, Class: "err", Msg: err.Error()}
 	}
 	return RunOut{Run: run, Class: "val", Val: fromM(out)}
+}
+
+// oneRun executes run number run: the call, every resume it needs and, with Case.Again, a
+// second continuation from the last checkpoint (result in again).
+func (h *rec) oneRun(c *Case, r compose.Runnable[M, M], run int, resumes *[]Resume, intSeen *bool, again **RunOut) RunOut {
+	ctx := context.WithValue(context.Background(), runKey{}, run)
+	var opts []compose.Option
+	if c.Interrupt != nil {
+		opts = append(opts, compose.WithCheckPointID(fmt.Sprintf("cp%d", run)))
+	}
+	out, err := h.call(c, r, ctx, opts...)
+	out, err, last := h.resumeLoop(c, r, ctx, run, run, out, err, resumes, intSeen)
+	if err == nil && c.Again && last != nil {
+		// the store still holds the last checkpoint of this run: resume from it once more
+		run2 := c.Runs + run
+		h.installRounds(run2, last.rounds)
+		ctx2 := context.WithValue(context.Background(), runKey{}, run2)
+		res := Resume{Run: run2, Mods: []int{}, Snaps: append([]SnapState{}, last.marker.Snaps...)}
+		res.Seq = atomic.AddInt64(&h.seq, 1)
+		h.mu.Lock()
+		h.replays = append(h.replays, replayInfo{From: run, Run: run2, CutSeq: last.marker.Seq, PrefixGens: last.gens})
+		h.mu.Unlock()
+		out2, err2 := h.call(c, r, ctx2, h.runOpts(c, run2, run)...)
+		h.mu.Lock()
+		res.Mods = append(res.Mods, h.mods[run2]...)
+		h.mu.Unlock()
+		sort.Ints(res.Mods)
+		*resumes = append(*resumes, res)
+		out2, err2, _ = h.resumeLoop(c, r, ctx2, run2, run, out2, err2, resumes, intSeen)
+		ro := outOf(run2, out2, err2)
+		*again = &ro
+	}
+	return outOf(run, out, err)
 }
 
 func pathOf(p compose.NodePath) []string { return (&p).GetPath() }
@@ -869,7 +973,7 @@ func (c *Case) execute() (o Obs, hang bool) {
 		_ = compose.RegisterSerializableType[St]("c11_state")
 		_ = compose.RegisterSerializableType[St2]("c11_state2")
 	})
-	h := &rec{yseed: c.Yield, mods: map[int][]int{}, rounds: map[[3]int]int{}}
+	h := &rec{yseed: c.Yield, mods: map[int][]int{}, rounds: map[[3]int]int{}, gens: map[int]int64{}}
 	top, err := h.build(c, 0, 0)
 	if err != nil {
 		return Obs{BuildErr: "add"}, false
@@ -890,13 +994,14 @@ func (c *Case) execute() (o Obs, hang bool) {
 		return Obs{BuildErr: "compile"}, false
 	}
 	results := make([]RunOut, c.Runs)
+	agains := make([]*RunOut, c.Runs)
 	resumes := make([][]Resume, c.Runs)
 	intSeen := make([]bool, c.Runs)
 	done := make(chan struct{})
 	go func() {
 		defer close(done)
 		one := func(i int) {
-			if p := lib.Recover(func() { results[i] = h.oneRun(c, r, i, &resumes[i], &intSeen[i]) }); p != nil {
+			if p := lib.Recover(func() { results[i] = h.oneRun(c, r, i, &resumes[i], &intSeen[i], &agains[i]) }); p != nil {
 				results[i] = RunOut{Run: i, Class: "panic", Msg: fmt.Sprint(p)}
 			}
 		}
@@ -940,6 +1045,98 @@ func (c *Case) execute() (o Obs, hang bool) {
 	h.mu.Lock()
 	defer h.mu.Unlock()
 	sort.Slice(h.events, func(i, j int) bool { return h.events[i].Seq < h.events[j].Seq })
+	for i := range results {
+		o.Resumes = append(o.Resumes, resumes[i]...)
+		o.IntSeen = o.IntSeen || intSeen[i]
+	}
+	sort.Slice(o.Resumes, func(i, j int) bool { return o.Resumes[i].Seq < o.Resumes[j].Seq })
+	for _, g := range h.gens {
+		o.Gens += g
+	}
+	// A second continuation from a checkpoint (Case.Again) is presented as one more run: its
+	// prefix up to the checkpoint is a copy of the original run's prefix (same sections, same
+	// values, state objects of its own), placed just before its resume marker; what it did after
+	// the checkpoint is what was observed. The run indices of these runs are made contiguous.
+	type keyed struct {
+		key int64
+		ev  *Event
+		rs  *Resume
+	}
+	const K = int64(1) << 20
+	var items []keyed
+	for _, e := range h.events {
+		items = append(items, keyed{key: e.Seq * K, ev: e})
+	}
+	for i := range o.Resumes {
+		items = append(items, keyed{key: o.Resumes[i].Seq * K, rs: &o.Resumes[i]})
+	}
+	sort.Slice(h.replays, func(i, j int) bool { return h.replays[i].From < h.replays[j].From })
+	fakes := map[*St]*St{}
+	for k, rp := range h.replays {
+		final := c.Runs + k
+		var markerSeq int64 = -1
+		for i := range o.Resumes {
+			if o.Resumes[i].Run == rp.Run && (markerSeq < 0 || o.Resumes[i].Seq < markerSeq) {
+				markerSeq = o.Resumes[i].Seq
+			}
+		}
+		n := int64(0)
+		for _, it := range items {
+			if it.key%K != 0 || it.key/K >= rp.CutSeq {
+				continue
+			}
+			switch {
+			case it.ev != nil && it.ev.Run == rp.From:
+				e2 := *it.ev
+				e2.Run = final
+				if fakes[e2.ptr] == nil {
+					fakes[e2.ptr] = new(St)
+				}
+				e2.ptr = fakes[e2.ptr]
+				n++
+				items = append(items, keyed{key: (markerSeq-1)*K + n, ev: &e2})
+			case it.rs != nil && it.rs.Run == rp.From:
+				r2 := *it.rs
+				r2.Run = final
+				n++
+				items = append(items, keyed{key: (markerSeq-1)*K + n, rs: &r2})
+			}
+		}
+		for _, it := range items {
+			if it.key%K == 0 && it.ev != nil && it.ev.Run == rp.Run {
+				it.ev.Run = final
+			}
+			if it.key%K == 0 && it.rs != nil && it.rs.Run == rp.Run {
+				it.rs.Run = final
+			}
+		}
+		for i := range agains {
+			if agains[i] != nil && agains[i].Run == rp.Run {
+				agains[i].Run = final
+			}
+		}
+		o.Gens += rp.PrefixGens
+	}
+	for orig, fake := range fakes {
+		// the original's objects of the prefix are not touched after the checkpoint
+		*fake = St{Total: orig.Total, Log: append([]int64{}, orig.Log...), Cnt: map[string]int64{}}
+		for k, v := range orig.Cnt {
+			fake.Cnt[k] = v
+		}
+	}
+	sort.SliceStable(items, func(i, j int) bool { return items[i].key < items[j].key })
+	var events []*Event
+	var rsm []Resume
+	for i, it := range items {
+		if it.ev != nil {
+			it.ev.Seq = int64(i + 1)
+			events = append(events, it.ev)
+		} else {
+			it.rs.Seq = int64(i + 1)
+			rsm = append(rsm, *it.rs)
+		}
+	}
+	h.events, o.Resumes = events, rsm
 	ptrIdx := map[*St]int{}
 	var ptrs []*St
 	for _, e := range h.events {
@@ -953,13 +1150,13 @@ func (c *Case) execute() (o Obs, hang bool) {
 	for i, p := range ptrs {
 		o.Finals = append(o.Finals, FinalOb{Obj: i, S: obsState(p)})
 	}
-	for i := range results {
-		o.Resumes = append(o.Resumes, resumes[i]...)
-		o.IntSeen = o.IntSeen || intSeen[i]
-	}
-	sort.Slice(o.Resumes, func(i, j int) bool { return o.Resumes[i].Seq < o.Resumes[j].Seq })
 	o.Results = results
-	o.Gens = atomic.LoadInt64(&h.gens)
+	for _, a := range agains {
+		if a != nil {
+			o.Results = append(o.Results, *a)
+		}
+	}
+	sort.SliceStable(o.Results, func(i, j int) bool { return o.Results[i].Run < o.Results[j].Run })
 	o.Overlap = atomic.LoadInt32(&h.overlap) != 0
 	return o, false
 }
@@ -1098,7 +1295,7 @@ func (c *Case) coqTerm(o *Obs) string {
 			failing = failing || c.failApplies(n)
 		}
 	}
-	return lib.CoqApp("mkCase", c.coqForest(), lib.CoqList(gty), lib.CoqList(nty), lib.CoqBool(failing), coqX([]KV{{0, c.X0}}), lib.CoqN(uint64(c.Runs)),
+	return lib.CoqApp("mkCase", c.coqForest(), lib.CoqList(gty), lib.CoqList(nty), lib.CoqBool(failing), coqX([]KV{{0, c.X0}}), lib.CoqN(uint64(len(o.Results))),
 		lib.CoqBool(o.BuildErr != ""), "\n  "+lib.CoqList(logs), "\n  "+lib.CoqList(finals), lib.CoqList(results),
 		lib.CoqN(uint64(o.Gens)))
 }
@@ -1172,6 +1369,12 @@ func (c *Case) tags(o *Obs) []string {
 		if g.Loop != nil {
 			t = append(t, fmt.Sprintf("loop:%d", g.Loop.Iter))
 		}
+	}
+	if len(o.Results) > c.Runs {
+		t = append(t, "resume:again")
+	}
+	if c.Interrupt != nil && o.IntSeen && c.Runs > 1 {
+		t = append(t, "interrupt:multi-run")
 	}
 	if c.Stream {
 		t = append(t, "call:stream")
@@ -1471,6 +1674,15 @@ func (c *Case) oracle(o *Obs) (string, string) {
 			return ev.bad, ev.sig
 		}
 	}
+	// a well-formed program none of whose user functions fails runs to completion: every node
+	// finds the state of the nearest enclosing graph that declares one
+	if !c.mustFail() {
+		for _, r := range o.Results {
+			if r.Class == "err" {
+				return fmt.Sprintf("run %d failed although no user function fails and every ProcessState call has a state of its type in scope: %s", r.Run, r.Msg), "unexpected-error"
+			}
+		}
+	}
 	// generator calls
 	okAll := true
 	for _, r := range o.Results {
@@ -1485,11 +1697,30 @@ func (c *Case) oracle(o *Obs) (string, string) {
 				st++
 			}
 		}
-		if o.Gens != int64(st*c.Runs) {
-			return fmt.Sprintf("%d generator calls for %d runs x %d stateful graphs", o.Gens, c.Runs, st), "gens"
+		if o.Gens != int64(st*len(o.Results)) {
+			return fmt.Sprintf("%d generator calls for %d runs x %d stateful graphs", o.Gens, len(o.Results), st), "gens"
 		}
 	}
 	return "", ""
+}
+
+// mustFail: some user function returns an error, or a lambda calls ProcessState where no
+// enclosing graph declares state / for another type than the nearest one that does.
+func (c *Case) mustFail() bool {
+	for gi, g := range c.Forest {
+		for _, n := range g.Nodes {
+			if c.failApplies(n) {
+				return true
+			}
+			if n.Sub < 0 && n.PS > 0 {
+				o := c.ownerOf(gi)
+				if o < 0 || tyOr(n.PSTy, c.Forest[o].STy) != c.Forest[o].STy {
+					return true
+				}
+			}
+		}
+	}
+	return false
 }
 
 // flowEval computes, from the values the critical sections of one run returned, the value
